@@ -32,4 +32,21 @@ def jobs(tier):
                  env=["assert_stubs.c", "mem.c", "msg_model.c"], checks="assert", unwind=8, unwindset=["strcmp.0:48", "strlen.0:24"], timeout=300,
                  encodes=["bus_driver_handle_remove_match", "bus_driver_send_ack_reply"], stubs=["parser / matchmaker / reply construction = outcome stubs with ghost counters"],
                  bounds="every outcome of parsing, reply construction, reply staging and rule lookup", shape="RemoveMatch all-or-nothing"))
+    # ---- library side: DBusString editing primitives are all-or-nothing under allocation failure (real heap strings, real reallocate path)
+    SH = [(0, 14, 6, 2, 1, 1, 4), (0, 15, 6, 3, 0, 0, 5), (0, 6, 5, 2, 1, 1, 3), (0, 7, 6, 7, 0, 0, 6), (0, 14, 6, 2, 3, 1, 3), (0, 14, 6, 2, 3, 1, 1),
+          (1, 14, 6, 5, 0, 1, 4), (1, 7, 6, 0, 0, 0, 6), (2, 14, 0, 3, 0, 0, 4), (2, 7, 0, 7, 0, 0, 2)]     # _dbus_string_append (C string) dropped: strlen over symbolic bytes, no verdict
+    OPN = ["replace_len", "copy_len", "insert_bytes", "append"]
+    for (op, dl, sl, at, rl, ss, ln) in SH:
+        for k in (0, 1, 2):
+            J.append(Job(name=f"string.{OPN[op]}.D{dl}S{sl}.at{at}r{rl}s{ss}l{ln}.k{k}", group="C14.string", harness="harness/C14_string.c",
+                         defines={"OP": op, "DL": dl, "SL": max(sl, 1), "AT": at, "RL": rl, "SS": ss, "LEN": ln, "KOOM": k}, env=["assert_stubs.c", "mem.c", "memfuncs.c"],
+                         checks="assert", unwind=48, timeout=600, extra=["--object-bits", "11", "--max-field-sensitivity-array-size", "200"], tiers=("quick", "thorough"),
+                         encodes=["_dbus_string_" + OPN[op], "copy", "open_gap", "delete", "set_length", "reallocate_for_length", "_dbus_string_init", "_dbus_string_append_byte"],
+                         stubs=["dbus_malloc / dbus_realloc = malloc with a concrete failing call number (R3)", "malloc returns 8-aligned blocks (_DBUS_ALIGN_ADDRESS = identity)"],
+                         bounds=f"{OPN[op]}: destination {dl} bytes, source {sl} bytes, at {at}, replacing {rl}, taking {ln} from {ss}; all bytes symbolic; allocation number {k} of the operation fails (0 = none)",
+                         shape=f"{OPN[op]} D{dl} S{sl} at{at} r{rl} s{ss} l{ln} fault {k}"))
+    # header edits with one failing allocation (same jobs as C12.oom; found F15)
+    sp12 = importlib.util.spec_from_file_location("vfjobs_x_C12", os.path.join(os.path.dirname(__file__), "C12.py")); m12 = importlib.util.module_from_spec(sp12); m12.Job = Job; sp12.loader.exec_module(m12)
+    for j in m12.jobs(tier):
+        if j.group == "C12.oom": j.group = "C14.header"; j.name = "header_" + j.name; J.append(j)
     return J
